@@ -8,6 +8,7 @@
  *   fmt <total> <level> <subject_hex|null> <msg_len> <date_format> <shape>
  *   init <a|b|n> <level>          a: pipeline+foreground  b: pipeline+failing channel  n: no-alloc logger
  *   setlevel <a|b|n> <level>
+ *   wfail <k>* | wfail -         the recording writer's write() fails on these call ordinals (counted from the case start)
  *   pipe <a|b> <level> <subject_id> <subject_hex> <msg_len> <shape> <macro|cond>
  *   noalloc <level> <subject_id> <subject_hex> <msg_len> <shape> <macro|cond>
  */
@@ -119,6 +120,8 @@ static uint8_t *s_rec[MAXREC];
 static size_t s_rec_len[MAXREC];
 static bool s_rec_nulterm[MAXREC];
 static size_t s_nrec;
+#define MAXFAIL 64
+static size_t s_wfail[MAXFAIL], s_nwfail, s_wcalls, s_werr;
 
 static void s_rec_clear(void) {
     for (size_t i = 0; i < s_nrec; ++i) {
@@ -134,6 +137,13 @@ static int s_rec_write(struct aws_log_writer *writer, const struct aws_string *o
     s_rec_len[s_nrec] = output->len;
     s_rec_nulterm[s_nrec] = output->bytes[output->len] == 0;
     ++s_nrec;
+    size_t ordinal = s_wcalls++;
+    for (size_t i = 0; i < s_nwfail; ++i) {
+        if (s_wfail[i] == ordinal) {
+            ++s_werr;
+            return aws_raise_error(AWS_ERROR_FILE_WRITE_FAILURE); /* disk full, closed pipe, … */
+        }
+    }
     return AWS_OP_SUCCESS;
 }
 static void s_rec_clean_up(struct aws_log_writer *writer) {
@@ -180,6 +190,7 @@ static void s_reset(void) {
         s_have_noalloc = false;
     }
     s_rec_clear();
+    s_nwfail = s_wcalls = s_werr = 0;
     s_frozen = false;
     tl_logging_thread_id.is_valid = false;
 }
@@ -361,6 +372,7 @@ static void s_op_log(struct aws_logger *lg, bool is_file, char **t, int base) {
         pos0 = ftell(s_noalloc_file);
     }
     s_rec_clear();
+    size_t werr0 = s_werr;
     s_log_shaped(lg, level, subject, msg_len, shape, cond);
     if (is_file) {
         fflush(s_noalloc_file);
@@ -370,13 +382,13 @@ static void s_op_log(struct aws_logger *lg, bool is_file, char **t, int base) {
         fseek(s_noalloc_file, pos0, SEEK_SET);
         HC_CHECK(fread(buf, 1, n, s_noalloc_file) == n);
         fseek(s_noalloc_file, 0, SEEK_END);
-        printf("P log lines=%d live=%ld\n", n ? 1 : 0, hc_live_blocks() - live0);
+        printf("P log lines=%d live=%ld werr=0\n", n ? 1 : 0, hc_live_blocks() - live0);
         if (n) {
             s_print_line(buf, n);
         }
         free(buf);
     } else {
-        printf("P log lines=%zu live=%ld\n", s_nrec, hc_live_blocks() - live0);
+        printf("P log lines=%zu live=%ld werr=%zu\n", s_nrec, hc_live_blocks() - live0, s_werr - werr0);
         for (size_t i = 0; i < s_nrec; ++i) {
             s_print_line(s_rec[i], s_rec_len[i]);
             if (!s_rec_nulterm[i]) {
@@ -399,6 +411,13 @@ int main(void) {
             s_op_env(t);
         } else if (!s_frozen) {
             printf("bad-op\n");
+        } else if (!strcmp(t[0], "wfail") && n >= 2 && n - 1 <= MAXFAIL) {
+            s_nwfail = 0;
+            for (int i = 1; i < n; ++i) {
+                if (strcmp(t[i], "-") != 0) {
+                    s_wfail[s_nwfail++] = hc_parse_size(t[i]);
+                }
+            }
         } else if (!strcmp(t[0], "fmt") && n == 7) {
             s_op_fmt(t);
         } else if (!strcmp(t[0], "init") && n == 3 && strlen(t[1]) == 1 && strchr("abn", t[1][0])) {
